@@ -176,6 +176,11 @@ Res exec_op(const Op &o) {
     for (auto &s : av) argv.push_back(&s[0]);
     argv.push_back(nullptr);
     u8_t *vals = get_v_opt((int)av.size(), argv.data());
+    if (getenv("C15_DEBUG")) {
+      std::string a;
+      for (auto &x : av) a += x.substr(0, 40) + " ";
+      fprintf(stderr, "C15_DEBUG pid=%d argv: %s -> %s\n", (int)getpid(), a.c_str(), vals ? "parsed" : "NULL");
+    }
     if (!vals) r.ret = -1;
     else {
       vpak_t *p = (vpak_t *)vals;
